@@ -190,3 +190,39 @@ package evaluator
 //@   loop 1 modifies elements[*]
 //@   loop 1 invariant -1 <= rangeindex && rangeindex < len(slice) && fresh(elements) && len(elements) == len(slice) && off(elements) == 0
 //@   loop 1 invariant forall(i, int, 0 <= i && i <= rangeindex ==> is(elements[i], *stringVal) && fresh(elements[i]) && elements[i].(*stringVal).V == slice[i])
+
+// ---- C13: the message of a failed `test` is the third argument as written; it is a format string only when
+// format arguments follow it (docs/builtins.md: "test want got [message [args...]]").
+//@ func sprintf(s string, vals []value) (r string)
+//@   noverify formatting with fmt.Sprintf is not under contract
+//@   modifies nothing
+
+//@ func testMessage(args []value) (msg string)
+//@   props C13
+//@   requires[validated-by-validateTestArgs] len(args) > 2 ==> args[2] != nil && is(args[2], *anyVal) && ref(args[2]) != 0 && args[2].(*anyVal).V != nil && is(args[2].(*anyVal).V, *stringVal) && ref(args[2].(*anyVal).V) != 0
+//@   ensures[C13 no-message] len(args) <= 2 ==> msg == "" && ncalls("sprintf") == 0
+//@   ensures[C13 plain-message-verbatim] len(args) == 3 ==> ncalls("sprintf") == 0 && msg == concat(concat(" (", args[2].(*anyVal).V.(*stringVal).V), ")")
+//@   ensures[C13 message-formatted-with-arguments] len(args) > 3 ==> ncalls("sprintf") == 1 && callarg("sprintf", 1, 0).(string) == args[2].(*anyVal).V.(*stringVal).V && msg == concat(concat(" (", callres("sprintf", 1, 0).(string)), ")")
+//@   modifies nothing
+
+// Arguments of `test` arrive wrapped in any (its parameters are variadic any): assumed of the parser/evaluator.
+//@ func validateTestArgs(args []value) (err error)
+//@   props C13
+//@   requires[assumed-any-wrapped] forall(i, int, 0 <= i && i < len(args) ==> args[i] != nil && is(args[i], *anyVal) && ref(args[i]) != 0 && (args[i].(*anyVal).V != nil ==> ref(args[i].(*anyVal).V) != 0))
+//@   ensures[C13 at-least-one-argument] err == nil ==> len(args) >= 1
+//@   ensures[C13 single-argument-is-bool] err == nil && len(args) == 1 ==> args[0].(*anyVal).V != nil && is(args[0].(*anyVal).V, *boolVal)
+//@   ensures[C13 message-is-string] err == nil && len(args) > 2 ==> args[2].(*anyVal).V != nil && is(args[2].(*anyVal).V, *stringVal)
+//@   ensures[C13 bad-arguments] err != nil ==> wraps(err, ErrBadArguments)
+//@   modifies nothing
+
+//@ func same(want value, got value) (r bool)
+//@   noverify structural comparison is not under contract
+//@   modifies nothing
+
+//@ func testFunc(_ *scope, args []value) (r value, err error)
+//@   props C13
+//@   requires[assumed-any-wrapped] forall(i, int, 0 <= i && i < len(args) ==> args[i] != nil && is(args[i], *anyVal) && ref(args[i]) != 0 && (args[i].(*anyVal).V != nil ==> ref(args[i].(*anyVal).V) != 0))
+//@   ensures[C13 single-true-passes] len(args) == 1 && err == nil ==> args[0].(*anyVal).V.(*boolVal).V
+//@   ensures[C13 want-got-compared] len(args) >= 2 && !wraps(err, ErrBadArguments) ==> ncalls("same") == 1 && callarg("same", 1, 0) == args[0] && callarg("same", 1, 1) == args[1] && (err == nil <==> callres("same", 1, 0).(bool))
+//@   ensures[C13 no-result] r == nil
+//@   modifies nothing
